@@ -214,7 +214,7 @@ package lib
 //@   ensures @C08 @C09: result == nil && old(trackedReg(r, d)) == nil ==> trackedReg(r, d) == d && !d.Valid
 //@   ensures @C08 @C09: old(trackedReg(r, d)) != nil ==> result == nil && trackedReg(r, d) == old(trackedReg(r, d)) && trackedReg(r, d).Valid == old(trackedReg(r, d).Valid)
 //@   ensures @C09: result != nil ==> trackedReg(r, d) == old(trackedReg(r, d))
-//@   assigns memory, now()
+//@   assigns allof(DecoyRegistration.Valid), allof(DecoyRegistration.regCount), allmaps(r.decoys), allmaps(r.decoys[""]), allmaps(r.decoysTimeouts), allof(DecoyTimeout.status), now()
 
 //@ func (r *RegisteredDecoys) totalRegistrations() int
 //@   requires r != nil && (held(&r.m) || rheld(&r.m) > 0)
@@ -226,6 +226,7 @@ package lib
 //@ func (r *RegisteredDecoys) Track(d *DecoyRegistration) error
 //@   requires r != nil && d != nil && !held(&r.m) && rheld(&r.m) == 0
 //@   ensures @C09: !held(&r.m) && rheld(&r.m) == 0
+//@   assigns allof(DecoyRegistration.Valid), allof(DecoyRegistration.regCount), allmaps(r.decoys), allmaps(r.decoys[""]), allmaps(r.decoysTimeouts), allof(DecoyTimeout.status), now(), held(&r.m), acq(&r.m)
 
 //@ func (r *RegisteredDecoys) TrackIfNotExists(d *DecoyRegistration) (bool, error)
 //@   requires r != nil && d != nil && !held(&r.m) && rheld(&r.m) == 0
@@ -269,6 +270,7 @@ package lib
 //@ func (r *RegisteredDecoys) RegistrationExists(d *DecoyRegistration) *DecoyRegistration
 //@   requires r != nil && d != nil && !held(&r.m) && rheld(&r.m) == 0
 //@   ensures @C09: !held(&r.m) && rheld(&r.m) == 0
+//@   assigns rheld(&r.m), acq(&r.m)
 
 //@ func (r *RegisteredDecoys) TotalRegistrations() int
 //@   requires r != nil && !held(&r.m) && rheld(&r.m) == 0
@@ -338,4 +340,70 @@ package lib
 
 //@ func getRedisClient() *redis.Client
 //@   assigns nothing
+//@   trusted
+
+// ---------------- C07 / C10 / C12 (station side) / C11: registration ingest ----------------
+
+//@ define isV4(ip net.IP) bool = len(ip) == 4 || (len(ip) == 16 && isV4Mapped(ip))
+//@ define regPrescanned(reg *DecoyRegistration) bool = reg.Flags != nil && reg.Flags.Prescanned != nil && *reg.Flags.Prescanned
+//@ define phantomBlocked(c *RegConfig, a net.IP) bool = (exists i int :: 0 <= i && i < len(c.phantomBlocklist) && ipnContains(c.phantomBlocklist[i], a))
+
+//@ func (c *RegConfig) IsBlocklistedPhantom(addr net.IP) bool
+//@   requires c != nil
+//@   ensures @C07: result == phantomBlocked(c, addr)
+//@   assigns nothing
+//@ loop 1:
+//@   invariant 0 <= iter && iter <= len(c.phantomBlocklist)
+//@   invariant forall j int :: 0 <= j && j < iter ==> !ipnContains(c.phantomBlocklist[j], addr)
+
+// C07 "complete, names an enabled transport, phantom not blocklisted (registrations from the local detector are
+// checked for the blocklist later, after sharing)"
+//@ func (regManager *RegistrationManager) ValidateRegistration(reg *DecoyRegistration) (bool, error)
+//@   requires regManager != nil && regManager.RegConfig != nil && regManager.registeredDecoys != nil
+//@   ensures @C07: result0 ==> result1 == nil && reg != nil && reg.Keys != nil && len(reg.PhantomIp) >= 0 && reg.RegistrationSource != nil && reg.Transport in regManager.registeredDecoys.transports
+//@   ensures @C07: result0 && *reg.RegistrationSource != 1 ==> !phantomBlocked(regManager.RegConfig, reg.PhantomIp)
+//@   ensures @C07: !result0 ==> result1 != nil
+//@   assigns nothing
+
+// the liveness tester behind the manager (implementations are under contract in pkg/station/liveness, C18)
+// (assumed frame: a tester writes only state it owns - caches and counters; it holds no reference to registrations,
+// the registry or the configuration, so nothing the ingest path can read changes)
+//@ func (t liveness.Tester) PhantomIsLive(addr string, port uint16) (bool, error)
+//@   assigns nothing
+
+// C07 "passed on to peer stations at most once per client registration, marked as pre-scanned": the relayed wrapper
+// carries the pre-scanned flag and the DetectorPrescan source, and the IPv6 twin of a dual-stack registration relays nothing.
+//@ func (reg *DecoyRegistration) GenerateC2SWrapper() *pb.C2SWrapper
+//@   requires reg != nil && reg.Keys != nil
+//@   ensures @C07: result != nil ==> result.RegistrationPayload != nil && result.RegistrationPayload.Flags != nil && result.RegistrationPayload.Flags.Prescanned != nil && *result.RegistrationPayload.Flags.Prescanned
+//@   ensures @C07: result != nil ==> result.RegistrationSource != nil && *result.RegistrationSource == 3
+//@   ensures @C07: !isV4(reg.PhantomIp) && reg.originalC2S != nil && reg.originalC2S.V4Support != nil && *reg.originalC2S.V4Support ==> result == nil
+
+// C07: the admission decision. AddRegistration (the only step that marks a registration valid and announces it) is
+// reached only when every admission condition holds; the liveness probe is sent only when one is required; a
+// registration is relayed to peers only if it came from the local detector and passed (or did not need) the probe.
+//@ func (rm *RegistrationManager) ingestRegistration(reg *DecoyRegistration)
+//@   requires rm != nil && rm.RegConfig != nil && rm.RegistrationStats != nil && rm.registeredDecoys != nil && rm.Logger != nil && rm.LivenessTester != nil
+//@   requires !held(&rm.registeredDecoys.m) && rheld(&rm.registeredDecoys.m) == 0
+//@   atcall ValidateRegistration after: snap validated := res0
+//@   atcall ParseOrResolveBlocklisted after: snap covertOK := res0
+//@   atcall PhantomIsLive before: assert @C07: !regPrescanned(reg) && isV4(reg.PhantomIp)
+//@   atcall PhantomIsLive after: snap liveVerdict := res0
+//@   atcall IsBlocklistedPhantom after: snap blockedLate := res
+//@   atcall tryShareRegistrationOverAPI before: assert @C07: arg0 == reg && *reg.RegistrationSource == 1 && (regPrescanned(reg) || !isV4(reg.PhantomIp) || (defined(liveVerdict) && !liveVerdict))
+//@   atcall AddRegistration before: assert @C07: arg1 == reg && defined(validated) && validated
+//@   atcall AddRegistration before: assert @C07: defined(covertOK) && covertOK != "" && reg.Covert == covertOK
+//@   atcall AddRegistration before: assert @C07: regPrescanned(reg) || !isV4(reg.PhantomIp) || (defined(liveVerdict) && !liveVerdict)
+//@   atcall AddRegistration before: assert @C07: *reg.RegistrationSource == 1 ==> defined(blockedLate) && !blockedLate
+
+// bookkeeping / formatting around the decision (frames only; none of them touches the registry lock in this thread:
+// GetConnectingTransports takes and releases the read lock before returning)
+//@ func (reg *DecoyRegistration) String() string
+//@   assigns nothing
+//@   trusted
+//@ func (s *RegistrationStats) AddRegStats(reg *DecoyRegistration)
+//@   assigns memory
+//@   trusted
+//@ func handleConnectingTpReg(regManager *RegistrationManager, reg *DecoyRegistration, logger *log.Logger)
+//@   assigns memory
 //@   trusted
